@@ -177,18 +177,31 @@ func (v *VerifStreamer) JoinWaiters() int { return verifCondWaiters(v.s.chargedC
 func (v *VerifStreamer) SetEventTimeout(d time.Duration) { v.s.eventTimeout = d }
 
 // Heartbeat runs one round of streamer.heartbeat's body; returns how many streams got a time-out.
+// The statements between the two marker comments are a COPY of the loop body of streamer.heartbeat
+// (streamer.go) — they cannot be called without its Sleep and endless loop. /verif's check compares
+// the two on every run (source fact "streamer-heartbeat-iteration"); StartHeartbeat runs the real one.
 func (v *VerifStreamer) Heartbeat() int {
-	v.s.blockedMu.Lock()
-	streams := append([]*stream(nil), v.s.blocked...)
-	v.s.blockedMu.Unlock()
+	s := v.s
+	streams := make([]*stream, 0)
 	n := 0
-	for _, st := range streams {
-		if st.tryUnblock() {
+	// heartbeat-iteration-begin
+	streams = streams[:0]
+
+	s.blockedMu.Lock()
+	streams = append(streams, s.blocked...)
+	s.blockedMu.Unlock()
+
+	for _, stream := range streams {
+		if stream.tryUnblock() {
 			n++
 		}
 	}
+	// heartbeat-iteration-end
 	return n
 }
+
+// StartHeartbeat starts the REAL heartbeat goroutine (streamer.start); Release stops it.
+func (v *VerifStreamer) StartHeartbeat() { v.s.start() }
 
 // Charged lists the stream ids in streamer.charged (bottom … top; joinStream pops the top).
 func (v *VerifStreamer) Charged() []uint64 {
